@@ -4,7 +4,7 @@ use crate::util::*;
 
 pub const NODE_KINDS: [u32; 4] = [0, 1, 2, 3];
 /// (kind, static text) of the session's syntax
-pub const STATICS: [(u32, &str); 4] = [(12, "+"), (13, ""), (14, "é→"), (16, "ab")];
+pub const STATICS: [(u32, &str); 5] = [(12, "+"), (13, ""), (14, "é→"), (16, "ab"), (17, "+")];
 pub const INTERNED_KINDS: [u32; 3] = [10, 11, 15];
 pub const TEXTS: [&str; 12] = ["", "a", "b", "é", "ab", "+", "é→", "aa", "x→y", "日本", "a b", "\u{1F600}"];
 
@@ -745,6 +745,9 @@ pub fn generate(what: &str, seed: u64, tier: &str) -> Vec<String> {
     match what {
         "red" => crate::gen_red::gen_red(seed, tier),
         "queries" => crate::gen_red::gen_queries(seed, tier),
+        "replace" => crate::gen_red::gen_replace(seed, tier),
+        "fmt" => crate::gen_red::gen_fmt(seed, tier),
+        "tokens" => crate::gen_red::gen_tokens(seed, tier),
         "greeneq" => gen_greeneq(seed, tier),
         "faults" => gen_faults(seed, tier),
         "checkpoints" => gen_checkpoints(seed, tier),
